@@ -13,6 +13,7 @@ type Lexer struct {
 	lineMode      bool
 	hadWhitespace bool
 	hadNewline    bool // newline was seen before current token
+	openString    bool // the input ended inside a string
 	lastNewLine   int  // position just after most recent newline
 	lineNumber    int
 }
@@ -37,6 +38,11 @@ func (l *Lexer) EOLEOF() *token.Token {
 		return token.EOLT
 	}
 	return token.EOFT
+}
+
+// OpenString tells if the end of the input was reached inside a string (in line mode: more input is needed).
+func (l *Lexer) OpenString() bool {
+	return l.openString
 }
 
 func (l *Lexer) Pos() int {
@@ -113,6 +119,7 @@ func (l *Lexer) NextToken() *token.Token {
 	case '"', '`':
 		str, ok := l.readString(ch)
 		if !ok {
+			l.openString = true
 			return l.EOLEOF()
 		}
 		return token.Intern(token.STRING, str)
